@@ -53,14 +53,38 @@ def eval_guard(test, valuation):
     return valuation(test)
 
 
+def _rank(node, order):
+    """Rank of a term: a ranked text, or ranked text +- 1 (integers: strictly between the neighbouring landmarks)."""
+    t = norm(node)
+    if t in order:
+        return order[t]
+    if isinstance(node, ast.BinOp) and isinstance(node.op, (ast.Add, ast.Sub)) and const_val(node.right, None) == 1 and norm(node.left) in order:
+        return order[norm(node.left)] + (0.5 if isinstance(node.op, ast.Add) else -0.5)
+    return None
+
+
 def order_valuation(order):
     """order: dict term text -> rank (numbers; equal rank == equal value).  Atoms: comparisons between ranked terms
-    (and integer literals if ranked under their text)."""
+    (and integer literals if ranked under their text); `x in range(a, b)` is a <= x < b."""
     def val(atom):
+        if isinstance(atom, ast.Compare) and len(atom.ops) == 1 and isinstance(atom.ops[0], (ast.In, ast.NotIn)) and \
+                isinstance(atom.comparators[0], ast.Call) and norm(atom.comparators[0].func) == 'range':
+            args = atom.comparators[0].args
+            lo = hi = None
+            if len(args) == 1 and isinstance(args[0], ast.Starred):
+                base = norm(args[0].value)
+                lo, hi = order.get(base + '[0]'), order.get(base + '[1]')
+            elif len(args) == 2:
+                lo, hi = _rank(args[0], order), _rank(args[1], order)
+            x = _rank(atom.left, order)
+            if lo is None or hi is None or x is None:
+                return None
+            inside = lo <= x < hi
+            return inside if isinstance(atom.ops[0], ast.In) else not inside
         if isinstance(atom, ast.Compare) and len(atom.ops) == 1:
             l, r = norm(atom.left), norm(atom.comparators[0])
-            if l in order and r in order:
-                a, b = order[l], order[r]
+            a, b = _rank(atom.left, order), _rank(atom.comparators[0], order)
+            if a is not None and b is not None:
                 reg = '<' if a < b else '=' if a == b else '>'
                 regs = cmp_regions(atom.ops[0])
                 if regs is None:
